@@ -14,7 +14,7 @@ Definition check (prop : Z) (inp impl : sx) : sx :=
        | 2 => check_doc prop inp impl
        | 3 | 4 | 5 | 6 => check_pol prop inp impl
        | 7 => check_drv prop inp impl
-       | 8 | 9 | 10 | 11 | 12 | 22 | 23 => check_par prop inp impl
+       | 8 | 9 | 10 | 11 | 12 | 22 | 23 | 24 | 25 => check_par prop inp impl
        | 13 | 14 => check_iso prop inp impl
        | 18 => check_shared prop inp impl
        | 19 => check_hs_timed prop inp impl
